@@ -85,3 +85,22 @@ package ratelimiter
 //@ field bucket.lastRefill guarded_by bucket.mutex
 //@ field TokenBucketRateLimiter.maxTokens immutable
 //@ field TokenBucketRateLimiter.refillRate immutable
+
+// Reclaiming idle buckets (the clean-up tick). A client whose bucket is dropped starts over with a full burst, so
+// dropping a bucket is only compatible with the window bound when a fresh bucket is indistinguishable from it:
+// the bucket has been idle for at least max_tokens refill periods (it would be full again anyway).
+//@ func (*TokenBucketRateLimiter).reclaimable
+//@   props C09
+//@   requires rl != nil && b != nil && rlCfg(rl) && wlocked(b.mutex)
+//@   ensures only_when_a_fresh_bucket_is_equivalent: result ==> now - b.lastRefill >= rl.maxTokens * rl.refillRate
+//@   ensures never_within_the_hour: result ==> now - b.lastRefill > 3600000000000
+//@ ghost var droppedOnlyEquivalent Bool
+//@ func (*TokenBucketRateLimiter).cleanup$1
+//@   props C09
+//@   may_panic
+//@   requires rl != nil && rlCfg(rl) && key != nil && dyntype(key, string) && value != nil && dyntype(value, *bucket) && ptr(value) != 0 && unlocked(asptr(value, *bucket).mutex)
+//@   requires now <= now()
+//@   ghost entry :: droppedOnlyEquivalent := true
+//@   ghost before Delete :: droppedOnlyEquivalent := now() - asptr(value, *bucket).lastRefill >= rl.maxTokens * rl.refillRate
+//@   ensures a_dropped_bucket_had_been_idle_for_max_tokens_refill_periods: droppedOnlyEquivalent
+//@   modifies droppedOnlyEquivalent, rl.buckets.has, rl.buckets.val, rl.buckets.dyn
